@@ -103,12 +103,8 @@ func (r *zstdByteStreamChunkReader) Close() {
 	r.pipeReader.Close()
 	r.cancel()
 
-	// Drain the gRPC stream.
-	for {
-		if _, err := r.client.Recv(); err != nil {
-			break
-		}
-	}
+	// The goroutine started by Get() is the only one that is allowed
+	// to call Recv(). It drains the stream before terminating.
 	r.wg.Wait()
 }
 
@@ -216,7 +212,13 @@ func (ba *casBlobAccess) Get(ctx context.Context, digest digest.Digest) buffer.B
 					return
 				}
 				if _, writeErr := pipeWriter.Write(chunk.Data); writeErr != nil {
-					return
+					// The reading side has been closed. Drain the
+					// (cancelled) gRPC stream.
+					for {
+						if _, err := client.Recv(); err != nil {
+							return
+						}
+					}
 				}
 			}
 		}()
